@@ -60,9 +60,41 @@ def r09_1(ctx):
                     o1 = sorted(map(str, obs))[0]
                     bad.append(f"{cname}: {'s' if exp[0] else 'u'}{exp[1]} expected, got {o1}")
             ctx.check(f"literal type [suffix '{suffix}', {base}]", not bad, "C11 type for every value class", "; ".join(bad) or "all classes agree", fn_where(idx, fi))
+    small_literal_typing(ctx)
     # unknown suffix rejected
     outs = Interp(idx).explore(lambda i: i.call_function(fi, [[Tok("DEC_NUMBER", "1"), Tok("INT_POST_TYPE", "L")]]))
     ctx.check("unsupported suffix is rejected", all(o.kind == "raise" for o in outs), "raises", str([outcome_text(o)[:30] for o in outs]), fn_where(idx, fi))
+
+
+def small_literal_typing(ctx):
+    """suffix -> (sign, width) for literals every candidate type can hold (value <= INT_MAX): '' int, U unsigned, LL long long,
+    ULL unsigned long long, in both spellings and both bases."""
+    idx = get_index(ctx.env)
+    fi = idx.func("get_value_type_by_c_number")
+    for suffix, exp in (("", (True, 32)), ("U", (False, 32)), ("u", (False, 32)), ("LL", (True, 64)), ("ll", (True, 64)), ("ULL", (False, 64)), ("ull", (False, 64)), ("Ull", (False, 64)), ("uLL", (False, 64))):
+        for tokt, text in (("DEC_NUMBER", "7"), ("HEX_NUMBER", "0x10"), ("DEC_NUMBER", "0"), ("HEX_NUMBER", "0x7fffffff")):
+            outs = Interp(idx).explore(lambda i, text=text, tokt=tokt: i.call_function(fi, [[Tok(tokt, text), Tok("INT_POST_TYPE", suffix) if suffix else None]]))
+            obs = {("RAISE" if o.kind == "raise" else (o.value.fields.get("_signed"), o.value.fields.get("_bit_width"))) for o in outs}
+            ctx.check(f"type of the literal {text}{suffix}", obs == {exp}, str(exp), str(sorted(map(str, obs))), fn_where(idx, fi))
+
+
+def wrap_to_type_checks(ctx):
+    """conversion of a constant to an integer type (6.3.1.3) on the boundary values of every width"""
+    idx = get_index(ctx.env)
+    if not idx.has_func("wrap_to_type"):
+        ctx.need(False, "wrap_to_type not found (the folders' conversion helper)")
+    fw = idx.func("wrap_to_type")
+    for signed in (True, False):
+        for w in (1, 8, 16, 32, 64):
+            vals = sorted({0, 1, -1, 2 ** (w - 1) - 1, 2 ** (w - 1), 2 ** (w - 1) + 1, -(2 ** (w - 1)), -(2 ** (w - 1)) - 1, 2**w - 1, 2**w, 2**w + 1, -(2**w), 5 * 2**w + 3})
+            bad = []
+            for v in vals:
+                outs = Interp(idx).explore(lambda i, v=v: i.call_function(fw, [v, mk_vt("t", signed, w)]))
+                got = [o.value if o.kind != "raise" else "RAISE" for o in outs]
+                exp = O.c_convert(v, (signed, w))
+                if got != [exp]:
+                    bad.append(f"{v} -> {got}, C11: {exp}")
+            ctx.check(f"wrap_to_type to ({'s' if signed else 'u'},{w}) on {len(vals)} boundary values", not bad, "value modulo 2^w, re-interpreted as two's complement for signed types", "; ".join(bad[:3]) or "ok", fn_where(idx, fw))
 
 
 def number(r, label, value, signed, width, groups=("PURE",), cls="Number"):
@@ -110,6 +142,7 @@ def r09_2(ctx):
     ctx.check("`!` is not folded by the unary folder", [o.value for o in outs] == [None], "None", str([lab(o.value) for o in outs]), fn_where(idx, fi))
     # --- binary arithmetic: operator table and result type
     fa = idx.func("RZILTransformer.simplify_arithmetic_expr")
+    wrap_to_type_checks(ctx)
     # value and type of every folded binary operation agree with the C11 evaluation of the unfolded expression
     def tname(t):
         return f"({'s' if t[0] else 'u'},{t[1]})"
@@ -165,6 +198,11 @@ def r09_2(ctx):
         fi, got = folded("simplify_arithmetic_expr", "ARITH_OP", op, 1, (False, 1), 1, (False, 1))
         exp = O.c_fold(op, 1, (False, 1), 1, (False, 1))
         ctx.check(f"fold binary {op} on two folded truth values", got == {exp}, str(exp), str(sorted(map(str, got))), fn_where(idx, fa))
+    # callers test a folder's result for presence (`if result:`): no IR node may have a truth value of its own, or a folded 0
+    # / an empty node would count as "not folded" after the folder has already removed operands
+    node_classes = set(idx.subclasses("Pure")) | set(idx.subclasses("Effect"))
+    truthy = sorted(f"{c}.{m}" for c in node_classes if c in idx.classes for m in ("__bool__", "__len__") if m in idx.classes[c].methods)
+    ctx.check("IR nodes have no truth value of their own (__bool__ / __len__)", not truthy, "none defined", str(truthy), "rzilcompiler/Transformer/Pures/Pure.py")
     # --- constant condition of ?:
     r = Runner(idx, keep_real=("simplify_conditional_expr",))
     for val, exp in ((1, "items[1]"), (0, "items[2]"), (7, "items[1]")):
@@ -199,6 +237,14 @@ def r09_3(ctx):
                 if any(isinstance(c, ast.Call) and call_tail(c) == "rm_op_by_name" for c in ast.walk(callee.node)) or \
                         any(isinstance(c, ast.Call) and isinstance(c.func, ast.Attribute) and isinstance(c.func.value, ast.Name) and c.func.value.id == "self" for c in ast.walk(callee.node)):
                     work.append(n.func.attr)
+    # ... and any other transformer / extension method that removes an operand (who-may-remove: today only the folders)
+    removers = [(fi.cls, fi.name) for fi in idx.funcs.values() if fi.cls in ("RZILTransformer", "HexagonTransformerExtension")
+                and any(isinstance(c, ast.Call) and call_tail(c) == "rm_op_by_name" for c in ast.walk(fi.node))]
+    for c, q in sorted(removers):
+        if c == "RZILTransformer" and q not in seen_q:
+            seen_q.append(q)
+        elif c != "RZILTransformer":
+            ctx.check(f"{c}.{q}: removes operands", False, "operands are removed by the constant folders only", "calls rm_op_by_name", fn_where(idx, idx.func(f"{c}.{q}")))
     for q in seen_q:
         fi = idx.func(f"RZILTransformer.{q}")
         for p in paths_of(fi.node):
